@@ -353,6 +353,7 @@ fn timed_case(t: &mut Tape, obs: &mut Obs) -> CaseResult {
     {
         let mut ctl = SimulatorPhy::new(baud, "tx");
         let mut rx = ctl.duplicate("rx");
+        let mut noop_tx = 0u64;
         let mut got: Vec<RefFrame> = vec![];
         let mut now = Instant::ZERO;
         for tel in &tels {
@@ -365,9 +366,16 @@ fn timed_case(t: &mut Tape, obs: &mut Obs) -> CaseResult {
             });
             let end = now + Duration::from_micros(byte_us(tel.len()) + 2);
             let step = byte_us(1 + jit.below(30) as usize);
+            // a slow receiver: it does not poll while the telegram arrives; afterwards - the bus is idle -
+            // it first makes a transmit call that sends nothing (what the FDL does when it has nothing
+            // to say), which must not touch what is waiting to be received
+            let lazy = jit.below(4) == 0;
             while now < end {
                 now += Duration::from_micros(1 + jit.below(step));
                 ctl.set_bus_time(now);
+                if lazy {
+                    continue;
+                }
                 if use_all {
                     let mut flags = vec![];
                     let r = rx.receive_all_telegrams(now, |tel, is_last| {
@@ -383,8 +391,20 @@ fn timed_case(t: &mut Tape, obs: &mut Obs) -> CaseResult {
                     got.push(x);
                 }
             }
+            if lazy {
+                rx.transmit_data(now, |_| (0, ()));
+                noop_tx += 1;
+                if use_all {
+                    rx.receive_all_telegrams(now, |tel, _| got.push(to_ref(&tel)));
+                } else if let Some(x) = rx.receive_telegram(now, |tel| to_ref(&tel)) {
+                    got.push(x);
+                }
+            }
         }
         ensure!(got == expect, "sequence", "SimulatorPhy: received {:?}, expected {:?}", got, expect);
+        if noop_tx > 0 {
+            obs.label("receiver-made-empty-transmit-calls");
+        }
     }
     obs.label(if use_all { "receive_all_telegrams" } else { "receive_telegram" });
     if tels.len() >= 2 {
